@@ -450,7 +450,7 @@ def tok_roles(ctx):
 @prop('C10',
       'TSPAN: at every construction of a token, both span fields are proved in-bounds char boundaries (SLICE domain) and the token text is the input slice over exactly the span\'s range — same values by provenance, or two reads of the scanner position with no advancing call in between; '
       'String: input[span.start + 1 .. span.end - 1] (the characters between the quotes, a sub-slice of the input, never a built string: no escape processing); Number: the value is parsed from input[span]; text handed in as a parameter must come, together with the start, from one scanner call whose text is input[start .. position]. '
-      'SLICE: every slice bound is a char boundary (see C01). TWS: the whitespace predicate (role: the char predicate guarding the advance in the skipper that runs before the dispatching character is read), evaluated over a finite partition of char, accepts SP, TAB, CR, LF and nothing that is not Unicode white space.',
+      'SLICE: every slice bound is a char boundary (see C01). TWS: the whitespace predicate (role: the char predicate guarding the advance in the skipper that runs before the dispatching character is read), evaluated over a finite partition of char, accepts SP, TAB, CR, LF and nothing that is not Unicode white space. MUNCH: in the symbolic-operator scanner the run is extended iff the longer slice is a registered operator; no other condition cuts it short (longest registered operator).',
       not_decided='classification (longest registered operator, whole-word operators, name( as function, bool keywords) and strict monotonicity of spans across a whole input: these depend on registry contents and iteration values',
       assumptions=COMMON_ASSUME)
 def c10(ctx):
@@ -462,6 +462,7 @@ def c10(ctx):
     obs += sobs
     obs += r_token.rule_tspan(sm, roles)
     obs += r_token.rule_tws(tok_roles(ctx))
+    obs += r_prec.rule_munch(roles, tok_roles(ctx).tm)
     return obs, {'analysed': {'slice_sites': len(sm.verdicts)}}
 
 
@@ -481,12 +482,13 @@ def c11(ctx):
     obs += r_token.rule_tws(tr)
     obs += r_token.rule_wws(tr)
     obs += r_token.rule_wparen(roles)
+    obs += [o for o in r_prec.rule_wpostfix(roles) if '|gate|' in o.key or 'floor' in o.key]
     return obs, {}
 
 
 @prop('C02',
       'TPREC: the rows the built-in filler registers (read off its MIR by a value-set analysis: constants, tuples, vec! literals, forward iteration, tuple correlation kept) equal the documented BinaryExpression table of README.md (`in` at the beginWith level); SETTER => RIGHT, CALC => LEFT; no operator registered twice with different rows. '
-      'WUNARY: every call path from the prefix builder to the infix loop crosses a body that consumes an opening delimiter (prefix binds tighter than every infix operator); a postfix operator applies to the primary just parsed. '
+      'WUNARY: every call path from the prefix builder to the infix loop crosses a body that consumes an opening delimiter (prefix binds tighter than every infix operator); a postfix operator applies to the primary just parsed. WPOSTFIX: the prefix operand is parsed by the postfix-attaching body (postfix binds tighter than prefix), and attaching depends only on registry membership of the current token. '
       'WTERN: the branch building the conditional is control-dependent on the minimum-precedence parameter (`?` is left to the outermost level). '
       'WGATE: the recursion gate and the callee\'s continuation test are the same predicate on (next.left, right), or differ only at equality while left = 2p and right = 2p +- 1 make equality impossible (adjacent precedences cannot collide).',
       not_decided='that the Pratt loop builds the right tree for every operator sequence (values of binding powers along unboundedly many iterations); the `x not OP y` rewrite (WNOT needs facts about the peeked token that no rule here establishes: not decided)',
@@ -502,4 +504,5 @@ def c02(ctx):
     obs += r_prec.rule_wtern(roles)
     obs += r_prec.rule_wgate(roles)
     obs += r_prec.rule_wassoc(ctx.prog)
+    obs += r_prec.rule_wpostfix(roles)
     return obs, {'analysed': {'registered_rows': len(rows)}}
